@@ -1,5 +1,3 @@
-/// byte views of a requirement list
-pub open spec fn cows_bytes(c: Seq<Cow<'_, str>>) -> Seq<Seq<u8>> { Seq::new(c.len(), |i: int| cow_bytes(c[i])) }
 
 pub trait SignedHeaderRequirements {
     /// ghost: the three requirement lists as declared by the service
@@ -67,3 +65,200 @@ impl SignedHeaderRequirements for VecSignedHeaderRequirements {
 //@ props C08 C05
 //@ end
 }
+
+pub mod req_m {
+use super::*;
+/// C05 ("declared names match case-insensitively"): a list declares a name when one of its entries equals it up to ASCII case
+pub open spec fn declares(list: Seq<Seq<u8>>, name: Seq<u8>) -> bool { exists|i: int| 0 <= i < list.len() && lower(#[trigger] list[i]) == lower(name) }
+pub proof fn lemma_lower_idem(s: Seq<u8>)
+    ensures lower(lower(s)) == lower(s)
+{ assert(lower(lower(s)) =~= lower(s)); }
+/// what `add_*` does to its list: nothing when the lower-cased name is already an entry, else the name as given is appended
+pub open spec fn list_add(list: Seq<Seq<u8>>, name: Seq<u8>) -> Seq<Seq<u8>> { if list.contains(lower(name)) { list } else { list.push(name) } }
+/// what `remove_*` does to its list: every entry that equals the name up to ASCII case goes, the rest stay in order
+pub open spec fn list_remove(list: Seq<Seq<u8>>, name: Seq<u8>) -> Seq<Seq<u8>> { seqs_without_lower(list, lower(name)) }
+pub proof fn lemma_list_add(list: Seq<Seq<u8>>, name: Seq<u8>)
+    ensures declares(list_add(list, name), name), forall|n: Seq<u8>| declares(list, n) ==> declares(list_add(list, name), n),
+{
+    let l2 = list_add(list, name);
+    if list.contains(lower(name)) {
+        let i = choose|i: int| 0 <= i < list.len() && list[i] == lower(name);
+        lemma_lower_idem(name);
+        assert(lower(l2[i]) == lower(name));
+    } else {
+        assert(lower(l2[list.len() as int]) == lower(name));
+    }
+    assert forall|n: Seq<u8>| declares(list, n) implies declares(l2, n) by {
+        let i = choose|i: int| 0 <= i < list.len() && lower(#[trigger] list[i]) == lower(n);
+        assert(l2[i] == list[i]);
+    }
+}
+pub proof fn lemma_list_remove(list: Seq<Seq<u8>>, name: Seq<u8>)
+    ensures !declares(list_remove(list, name), name),
+        forall|n: Seq<u8>| lower(n) != lower(name) ==> (declares(list, n) <==> declares(list_remove(list, name), n)),
+{
+    let lname = lower(name);
+    let p = |b: Seq<u8>| lower(b) != lname;
+    let l2 = list_remove(list, name);
+    broadcast use vstd::seq_lib::group_filter_ensures;
+    assert forall|i: int| 0 <= i < l2.len() implies lower(#[trigger] l2[i]) != lower(name) by { assert(l2.contains(l2[i])); assert(p(l2[i])); }
+    assert forall|n: Seq<u8>| lower(n) != lower(name) implies (declares(list, n) <==> declares(l2, n)) by {
+        if declares(list, n) {
+            let i = choose|i: int| 0 <= i < list.len() && lower(#[trigger] list[i]) == lower(n);
+            assert(p(list[i])); list.lemma_filter_contains(p, i); assert(l2.contains(list[i]));
+            let j = choose|j: int| 0 <= j < l2.len() && l2[j] == list[i];
+            assert(lower(l2[j]) == lower(n));
+        }
+        if declares(l2, n) {
+            let j = choose|j: int| 0 <= j < l2.len() && lower(#[trigger] l2[j]) == lower(n);
+            assert(l2.contains(l2[j])); list.lemma_filter_contains_rev(p, l2[j]); assert(list.contains(l2[j]));
+            let i = choose|i: int| 0 <= i < list.len() && list[i] == l2[j];
+            assert(lower(list[i]) == lower(n));
+        }
+    }
+}
+
+impl VecSignedHeaderRequirements {
+//@ fn canonical.rs impl VecSignedHeaderRequirements :: new
+//@ props C08 C05
+//@ ret r
+//@ replace 1 `always_present.iter().map(|s| Cow::Owned((*s).into())).collect()` => `slice_refs_into_cows(always_present)`
+//@ replace 1 `if_in_request.iter().map(|s| Cow::Owned((*s).into())).collect()` => `slice_refs_into_cows(if_in_request)`
+//@ replace 1 `prefixes.iter().map(|s| Cow::Owned((*s).into())).collect()` => `slice_refs_into_cows(prefixes)`
+//@ spec
+        ensures
+            r.always_spec() == refs_into_bytes::<A>(always_present@) && r.if_in_request_spec() == refs_into_bytes::<B>(if_in_request@)
+                && r.prefixes_spec() == refs_into_bytes::<C>(prefixes@), //# C05 name=each_list_stored_under_its_own_kind
+//@ end
+//@ fn canonical.rs impl VecSignedHeaderRequirements :: add_always_present
+//@ props C08 C05
+//@ replace 1 `header.to_ascii_lowercase()` => `str_to_ascii_lowercase(header)`
+//@ replace 1 `h == &header_lower` => `cow_eq_string(h, &header_lower)`
+//@ spec
+        ensures
+            final(self).always_spec() == list_add(old(self).always_spec(), header.spec_bytes()), //# C05 name=name_added_unless_already_listed
+            declares(final(self).always_spec(), header.spec_bytes()), //# C05 name=added_name_is_declared
+            forall|n: Seq<u8>| declares(old(self).always_spec(), n) ==> declares(final(self).always_spec(), n), //# C05 name=earlier_declarations_kept
+            final(self).if_in_request_spec() == old(self).if_in_request_spec() && final(self).prefixes_spec() == old(self).prefixes_spec(), //# C05 name=other_lists_untouched
+//@ after 1 `self.always_present.push(Cow::Owned(header.to_string()));`
+        proof {
+            let l = old(self).always_spec();
+            let hb = header.spec_bytes();
+            lemma_list_add(l, hb);
+            assert(!l.contains(lower(hb)));
+            assert(self.always_spec() =~= l.push(hb));
+            assert(self.always_spec() == list_add(l, hb));
+        }
+//@ before 1 `return;`
+                proof { assert(old(self).always_spec()[it.index@] == lower(header.spec_bytes())); lemma_list_add(old(self).always_spec(), header.spec_bytes()); }
+//@ loop 1 iter it
+            invariant
+                *self == *old(self),
+                it.seq().len() == self.always_present@.len(),
+                forall|j: int| 0 <= j < it.seq().len() ==> *(#[trigger] it.seq()[j]) == self.always_present@[j],
+                forall|j: int| 0 <= j < it.index@ ==> cow_bytes(#[trigger] self.always_present@[j]) != lower(header.spec_bytes()),
+                str_bytes(header_lower@) == lower(header.spec_bytes()),
+//@ end
+//@ fn canonical.rs impl VecSignedHeaderRequirements :: remove_always_present
+//@ props C08 C05
+//   (the shadowing local is alpha-renamed so the contract can still name the parameter; the retain-with-closure idiom is outlined)
+//@ replace 1 `let header = header.to_ascii_lowercase();` => `let header_lc = str_to_ascii_lowercase(header);`
+//@ replace 1 `self.always_present.retain(|h| h.to_ascii_lowercase() != header);` => `vec_cow_retain_lower_ne(&mut self.always_present, &header_lc);`
+//@ spec
+        ensures
+            final(self).always_spec() == list_remove(old(self).always_spec(), header.spec_bytes()), //# C05 name=name_removed_whatever_its_case
+            !declares(final(self).always_spec(), header.spec_bytes()), //# C05 name=removed_name_no_longer_declared
+            forall|n: Seq<u8>| lower(n) != lower(header.spec_bytes()) ==> (declares(old(self).always_spec(), n) <==> declares(final(self).always_spec(), n)), //# C05 name=other_declarations_kept
+            final(self).if_in_request_spec() == old(self).if_in_request_spec() && final(self).prefixes_spec() == old(self).prefixes_spec(), //# C05 name=other_lists_untouched
+//@ after 1 `self.always_present.retain(|h| h.to_ascii_lowercase() != header);`
+        proof { lemma_list_remove(old(self).always_spec(), header.spec_bytes()); }
+//@ end
+//@ fn canonical.rs impl VecSignedHeaderRequirements :: add_if_in_request
+//@ props C08 C05
+//@ replace 1 `header.to_ascii_lowercase()` => `str_to_ascii_lowercase(header)`
+//@ replace 1 `h == &header_lower` => `cow_eq_string(h, &header_lower)`
+//@ spec
+        ensures
+            final(self).if_in_request_spec() == list_add(old(self).if_in_request_spec(), header.spec_bytes()), //# C05 name=name_added_unless_already_listed
+            declares(final(self).if_in_request_spec(), header.spec_bytes()), //# C05 name=added_name_is_declared
+            forall|n: Seq<u8>| declares(old(self).if_in_request_spec(), n) ==> declares(final(self).if_in_request_spec(), n), //# C05 name=earlier_declarations_kept
+            final(self).always_spec() == old(self).always_spec() && final(self).prefixes_spec() == old(self).prefixes_spec(), //# C05 name=other_lists_untouched
+//@ after 1 `self.if_in_request.push(Cow::Owned(header.to_string()));`
+        proof {
+            let l = old(self).if_in_request_spec();
+            let hb = header.spec_bytes();
+            lemma_list_add(l, hb);
+            assert(!l.contains(lower(hb)));
+            assert(self.if_in_request_spec() =~= l.push(hb));
+            assert(self.if_in_request_spec() == list_add(l, hb));
+        }
+//@ before 1 `return;`
+                proof { assert(old(self).if_in_request_spec()[it.index@] == lower(header.spec_bytes())); lemma_list_add(old(self).if_in_request_spec(), header.spec_bytes()); }
+//@ loop 1 iter it
+            invariant
+                *self == *old(self),
+                it.seq().len() == self.if_in_request@.len(),
+                forall|j: int| 0 <= j < it.seq().len() ==> *(#[trigger] it.seq()[j]) == self.if_in_request@[j],
+                forall|j: int| 0 <= j < it.index@ ==> cow_bytes(#[trigger] self.if_in_request@[j]) != lower(header.spec_bytes()),
+                str_bytes(header_lower@) == lower(header.spec_bytes()),
+//@ end
+//@ fn canonical.rs impl VecSignedHeaderRequirements :: remove_if_in_request
+//@ props C08 C05
+//   (the shadowing local is alpha-renamed so the contract can still name the parameter; the retain-with-closure idiom is outlined)
+//@ replace 1 `let header = header.to_ascii_lowercase();` => `let header_lc = str_to_ascii_lowercase(header);`
+//@ replace 1 `self.if_in_request.retain(|h| h.to_ascii_lowercase() != header);` => `vec_cow_retain_lower_ne(&mut self.if_in_request, &header_lc);`
+//@ spec
+        ensures
+            final(self).if_in_request_spec() == list_remove(old(self).if_in_request_spec(), header.spec_bytes()), //# C05 name=name_removed_whatever_its_case
+            !declares(final(self).if_in_request_spec(), header.spec_bytes()), //# C05 name=removed_name_no_longer_declared
+            forall|n: Seq<u8>| lower(n) != lower(header.spec_bytes()) ==> (declares(old(self).if_in_request_spec(), n) <==> declares(final(self).if_in_request_spec(), n)), //# C05 name=other_declarations_kept
+            final(self).always_spec() == old(self).always_spec() && final(self).prefixes_spec() == old(self).prefixes_spec(), //# C05 name=other_lists_untouched
+//@ after 1 `self.if_in_request.retain(|h| h.to_ascii_lowercase() != header);`
+        proof { lemma_list_remove(old(self).if_in_request_spec(), header.spec_bytes()); }
+//@ end
+//@ fn canonical.rs impl VecSignedHeaderRequirements :: add_prefix
+//@ props C08 C05
+//@ replace 1 `prefix.to_ascii_lowercase()` => `str_to_ascii_lowercase(prefix)`
+//@ replace 1 `h == &prefix_lower` => `cow_eq_string(h, &prefix_lower)`
+//@ spec
+        ensures
+            final(self).prefixes_spec() == list_add(old(self).prefixes_spec(), prefix.spec_bytes()), //# C05 name=name_added_unless_already_listed
+            declares(final(self).prefixes_spec(), prefix.spec_bytes()), //# C05 name=added_name_is_declared
+            forall|n: Seq<u8>| declares(old(self).prefixes_spec(), n) ==> declares(final(self).prefixes_spec(), n), //# C05 name=earlier_declarations_kept
+            final(self).always_spec() == old(self).always_spec() && final(self).if_in_request_spec() == old(self).if_in_request_spec(), //# C05 name=other_lists_untouched
+//@ after 1 `self.prefixes.push(Cow::Owned(prefix.to_string()));`
+        proof {
+            let l = old(self).prefixes_spec();
+            let hb = prefix.spec_bytes();
+            lemma_list_add(l, hb);
+            assert(!l.contains(lower(hb)));
+            assert(self.prefixes_spec() =~= l.push(hb));
+            assert(self.prefixes_spec() == list_add(l, hb));
+        }
+//@ before 1 `return;`
+                proof { assert(old(self).prefixes_spec()[it.index@] == lower(prefix.spec_bytes())); lemma_list_add(old(self).prefixes_spec(), prefix.spec_bytes()); }
+//@ loop 1 iter it
+            invariant
+                *self == *old(self),
+                it.seq().len() == self.prefixes@.len(),
+                forall|j: int| 0 <= j < it.seq().len() ==> *(#[trigger] it.seq()[j]) == self.prefixes@[j],
+                forall|j: int| 0 <= j < it.index@ ==> cow_bytes(#[trigger] self.prefixes@[j]) != lower(prefix.spec_bytes()),
+                str_bytes(prefix_lower@) == lower(prefix.spec_bytes()),
+//@ end
+//@ fn canonical.rs impl VecSignedHeaderRequirements :: remove_prefix
+//@ props C08 C05
+//   (the shadowing local is alpha-renamed so the contract can still name the parameter; the retain-with-closure idiom is outlined)
+//@ replace 1 `let prefix = prefix.to_ascii_lowercase();` => `let prefix_lc = str_to_ascii_lowercase(prefix);`
+//@ replace 1 `self.prefixes.retain(|h| h.to_ascii_lowercase() != prefix);` => `vec_cow_retain_lower_ne(&mut self.prefixes, &prefix_lc);`
+//@ spec
+        ensures
+            final(self).prefixes_spec() == list_remove(old(self).prefixes_spec(), prefix.spec_bytes()), //# C05 name=name_removed_whatever_its_case
+            !declares(final(self).prefixes_spec(), prefix.spec_bytes()), //# C05 name=removed_name_no_longer_declared
+            forall|n: Seq<u8>| lower(n) != lower(prefix.spec_bytes()) ==> (declares(old(self).prefixes_spec(), n) <==> declares(final(self).prefixes_spec(), n)), //# C05 name=other_declarations_kept
+            final(self).always_spec() == old(self).always_spec() && final(self).if_in_request_spec() == old(self).if_in_request_spec(), //# C05 name=other_lists_untouched
+//@ after 1 `self.prefixes.retain(|h| h.to_ascii_lowercase() != prefix);`
+        proof { lemma_list_remove(old(self).prefixes_spec(), prefix.spec_bytes()); }
+//@ end
+}
+} // mod req_m
+pub use req_m::*;
